@@ -33,49 +33,76 @@ def build(reg):
 
 
 def structure_items(repo):
+    """Facts about the shape of workspace_init, matched on the syntax tree with the local names bound by the match
+    (renaming a local or reordering independent statements does not change the verdict)."""
     items = []
     fw = repo.func(f"{LS}.workspace_init")
     body = fw.node.body
-    src = [ast.unparse(s) for s in body]
-    txt = "\n".join(src)
 
-    def idx(prefix):
-        return next((i for i, s in enumerate(src) if s.startswith(prefix)), None)
-    i_list, i_pool = idx("file_list = self._get_source_files()"), idx("pool = Pool(processes=self.nthreads)")
-    i_req = idx("for filepath in file_list:")
-    i_close, i_join = idx("pool.close()"), idx("pool.join()")
-    i_merge = idx("for path, result in results.items():")
-    i_inc = idx("for _, file_obj in self.workspace.items():\n    file_obj.ast.resolve_includes(self.workspace)")
-    i_bump = idx("self.link_version = (self.link_version + 1) % 1000")
-    i_link = idx("for _, file_obj in self.workspace.items():\n    file_obj.ast.resolve_links(self.obj_tree, self.link_version)")
-    order = [i_list, i_pool, i_req, i_close, i_join, i_merge, i_inc, i_bump, i_link]
-    ok = all(i is not None for i in order) and order == sorted(order)
-    req_ok = i_req is not None and "results[filepath] = pool.apply_async(self.file_init" in src[i_req]
-    items.append(Item("C15/LangServer.workspace_init/ensures.merge_in_file_list_order", "proved" if ok and req_ok else "refuted",
-                      "structural", 0.0, where=fw.where(), mode="table", func=fw.qualname,
-                      detail="results are requested in a loop over file_list, the pool is closed and joined, then the results are "
-                             "merged in insertion (= file-list) order: the completion order of the workers is not observable",
-                      witness=None if ok and req_ok else {"statement_order": order}))
-    # the merge loop is the only writer of the index in workspace_init
-    writers = []
-    for i, s in enumerate(body):
-        for n in ast.walk(s):
+    def call_name(n):
+        return ast.unparse(n.func) if isinstance(n, ast.Call) else None
+
+    pool_var = files_var = results_var = None
+    i_pool = i_req = i_close = i_join = i_merge = i_inc = i_bump = i_link = None
+    index_writes = []
+    for i, st_ in enumerate(body):
+        if isinstance(st_, ast.Assign) and len(st_.targets) == 1 and isinstance(st_.targets[0], ast.Name):
+            tgt, val = st_.targets[0].id, st_.value
+            if call_name(val) == "Pool":
+                pool_var, i_pool = tgt, i
+            elif call_name(val) == "self._get_source_files":
+                files_var = tgt
+        if isinstance(st_, ast.For) and isinstance(st_.iter, ast.Name) and st_.iter.id == files_var and isinstance(st_.target, ast.Name):
+            for n in ast.walk(st_):
+                if isinstance(n, ast.Assign) and isinstance(n.targets[0], ast.Subscript) and isinstance(n.targets[0].value, ast.Name) \
+                        and ast.unparse(n.targets[0].slice) == st_.target.id and call_name(n.value) == f"{pool_var}.apply_async" \
+                        and n.value.args and ast.unparse(n.value.args[0]) == "self.file_init":
+                    results_var, i_req = n.targets[0].value.id, i
+        if isinstance(st_, ast.Expr) and call_name(st_.value) == f"{pool_var}.close":
+            i_close = i
+        if isinstance(st_, ast.Expr) and call_name(st_.value) == f"{pool_var}.join":
+            i_join = i
+        if isinstance(st_, ast.For) and call_name(st_.iter) == f"{results_var}.items":
+            i_merge = i
+        if isinstance(st_, ast.For) and call_name(st_.iter) == "self.workspace.items":
+            calls = [ast.unparse(n.func).split(".")[-1] for n in ast.walk(st_) if isinstance(n, ast.Call)]
+            if "resolve_includes" in calls and "resolve_links" not in calls and i_inc is None:
+                i_inc = i
+            if "resolve_links" in calls and "resolve_includes" not in calls and i_link is None:
+                i_link = i
+            if "resolve_links" in calls and "resolve_includes" in calls:
+                i_inc = i_link = i  # fused passes
+        if isinstance(st_, ast.Assign) and ast.unparse(st_.targets[0]) == "self.link_version":
+            i_bump = i
+        for n in ast.walk(st_):
             if isinstance(n, (ast.Assign, ast.AugAssign)):
                 for t in (n.targets if isinstance(n, ast.Assign) else [n.target]):
                     tt = ast.unparse(t)
                     if tt.startswith("self.workspace[") or tt.startswith("self.obj_tree["):
-                        writers.append(i)
-    ok = bool(writers) and set(writers) == {i_merge}
+                        index_writes.append(i)
+            if isinstance(n, ast.Call) and ast.unparse(n.func) in ("self.workspace.update", "self.obj_tree.update", "self.workspace.setdefault",
+                                                                   "self.obj_tree.setdefault"):
+                index_writes.append(i)
+    order = [i_pool, i_req, i_close, i_join, i_merge]
+    ok = all(i is not None for i in order) and order == sorted(order) and len(set(order)) == len(order)
+    items.append(Item("C15/LangServer.workspace_init/ensures.merge_in_file_list_order", "proved" if ok else "refuted",
+                      "structural", 0.0, where=fw.where(), mode="table", func=fw.qualname,
+                      detail="results are requested in a loop over the file list, the pool is closed and joined, then the results are "
+                             "merged in insertion (= file-list) order: the completion order of the workers is not observable",
+                      witness=None if ok else {"statement_positions(pool, request loop, close, join, merge loop)": order}))
+    ok = bool(index_writes) and set(index_writes) == {i_merge}
     items.append(Item("C15/LangServer.workspace_init/modifies.index_written_by_merge_loop_only", "proved" if ok else "refuted",
                       "structural", 0.0, where=fw.where(), mode="table", func=fw.qualname,
                       detail="self.workspace and self.obj_tree are written by the merge loop only (main process, after join)",
-                      witness=None if ok else {"writer_statements": writers, "merge_loop": i_merge}))
+                      witness=None if ok else {"writer_statements": index_writes, "merge_loop": i_merge}))
+    txt = ast.unparse(fw.node)
     two_phase = all(i is not None for i in (i_merge, i_inc, i_bump, i_link)) and i_merge < i_inc < i_bump < i_link \
         and txt.count("resolve_links(") == 1 and txt.count("resolve_includes(") == 1
     items.append(Item("C15/LangServer.workspace_init/ensures.links_after_complete_index", "proved" if two_phase else "refuted",
                       "structural", 0.0, where=fw.where(), mode="table", func=fw.qualname,
                       detail="includes, then one link_version bump, then links, each over every file and only after the last file "
-                             "was merged: no link is resolved against a partial index"))
+                             "was merged: no link is resolved against a partial index",
+                      witness=None if two_phase else {"positions(merge, includes, bump, links)": [i_merge, i_inc, i_bump, i_link]}))
     fi = repo.func(f"{LS}.file_init")
     decs = [ast.unparse(d) for d in fi.node.decorator_list]
     args = [a.arg for a in fi.node.args.args]
